@@ -225,8 +225,13 @@ func main() {
 					ts := t1/sec + off
 					nonce := fmt.Sprintf("g%d", i)
 					evs := []ev{{t1, "nodeA", nonce, ts, true}, {t1 + gap, "nodeA", nonce, ts, true}}
-					if gap > 61*sec { // interleave other traffic so the lazy sweep runs
-						evs = []ev{evs[0], {t1 + gap/2, "nodeB", "x" + nonce, (t1 + gap/2) / sec, true}, evs[1]}
+					if gap > 61*sec { // interleave other traffic so the lazy sweep runs: mid-way, and late
+						// (shortly before the replay, in the last minute of the nonce's retention)
+						for _, back := range []int64{gap / 2, 30 * sec, 1} {
+							mid := t1 + gap - back
+							runCase(st, []ev{evs[0], {mid, "nodeB", "x" + nonce, mid / sec, true}, evs[1]})
+						}
+						continue
 					}
 					runCase(st, evs)
 				}
